@@ -245,6 +245,28 @@ def run(pid, tier, seed, replay=None):
         known_hits |= set(pknown)
         tv_states += pstates
         pl = {"pipelines_with_input_data_run_through_capture_or_communicate": len(presults), "note": pnote}
+        # communicate() of single commands under every combination of output settings: a stream is captured iff it was
+        # piped (stdout also when nothing was configured), anything else is reported as absent
+        from . import c_builder
+        bscs = []
+        for so in (None, "pipe", "null", "file"):
+            for se in (None, "pipe", "null", "merge"):
+                ops = ([["stdout", so]] if so else []) + ([["stderr", se]] if se else [])
+                for extra in ([], [["arg", "x"]]):
+                    bscs.append({"id": "bs%d" % len(bscs), "kind": "builder", "class": "builder-streams", "is_shell": False,
+                                 "shell": "", "ops": ops + extra, "term": "communicate", "orig_term": "capture", "detached": False})
+        bres, bstates = c_builder.run_sequences(bscs, "C02b")
+        bby = {x["id"]: x for x in bscs}
+        bseen = set()
+        for r in bres:
+            for v in r["viol"]:
+                if v.startswith("C02_") and v not in bseen:
+                    bseen.add(v)
+                    path = save_replay(pid, {"property": pid, "monitor": v, "signature": v + "/builder", "engine": "builder",
+                                             "scenario": bby[r["id"]]})
+                    uniq.append(("%s fired for builder sequence %s" % (v, r["id"]), path))
+        tv_states += bstates
+        pl["builder_sequences_with_communicate"] = len(bres)
     samples = []
     for bid in list(blk)[:2]:
         samples.append({"exchange": bid, "scenario": by_id.get(bid.split("#")[0]),
